@@ -142,8 +142,11 @@ fn gen_case(r: &mut Rng) -> Case {
     let lon = if kind == "meridian" { r.range(-180.0, 165.0) } else { gen::any_lon(r) };
     // gmt anywhere such that the shifted value stays in range (chains of unit steps cover every offset)
     let (glo, ghi) = ((-12.0f64).max(-12.0 - d), (12.0f64).min(12.0 - d));
-    let gmt = match r.int(0, 3) {
+    let gmt = match r.int(0, 5) {
         0 => (r.range(glo, ghi) * 4.0).round() / 4.0,
+        // offsets as people write them: one or two decimals (5.3, -4.45)
+        4 => (r.range(glo, ghi) * 10.0).round() / 10.0,
+        5 => (r.range(glo, ghi) * 100.0).round() / 100.0,
         1 => r.range(glo, ghi),
         _ => (lon / 15.0 + r.range(-2.0, 2.0)).clamp(glo, ghi),
     }
